@@ -7,7 +7,8 @@ Everything here is assembled from `Gen/C46.lean`, which the check regenerates fr
 the constants come from the compiled package, the start / timeout / guard expressions are the
 source expressions of each action's `execute` (arguments of `signTransaction`,
 `withCancelOnBlock`, `sign`), of `processCoordinationResult` (expiry), of `signingExecutor.sign`
-(loop timeout) and of `signingAttemptMaximumBlocks`.  Block numbers are `Nat` (heights are far
+(loop timeout) and of `signingAttemptMaximumBlocks`.  Every action starts at the end of a coordination window; the model is parametrised by that
+window's coordination block `cb`.  Block numbers are `Nat` (heights are far
 below 2^64, A-bc); Go's `uint64` subtraction is guarded by the extracted `…GuardFails` checks.
 -/
 namespace KeepVerif.C46
@@ -52,35 +53,39 @@ def compiledMargin : Action → Nat
   | .movedFundsSweep => movedFundsSweepCompiledMargin
   | .heartbeat => heartbeatInactivityClaimValidityBlocks
 
-/-- `node.go`: `expiryBlock := startBlock + proposal.ValidityBlocks()`. -/
-def expiry (a : Action) (s : Nat) : Nat := proposalExpiry s (validity a)
+/-- `node.go` `processCoordinationResult`: `startBlock := result.window.endBlock()` for the
+coordination window at coordination block `cb`. -/
+def start (cb : Nat) : Nat := actionStart cb
 
-def signStart (a : Action) (s : Nat) : Nat :=
-  match a with
-  | .depositSweep => depositSweepSignStart s (expiry a s)
-  | .redemption => redemptionSignStart s (expiry a s)
-  | .movingFunds => movingFundsSignStart s (expiry a s)
-  | .movedFundsSweep => movedFundsSweepSignStart s (expiry a s)
-  | .heartbeat => heartbeatSignStart s (expiry a s)
+/-- `node.go`: the `expiryBlock` expression (today `startBlock + proposal.ValidityBlocks()`). -/
+def expiry (a : Action) (cb : Nat) : Nat := proposalExpiry cb (start cb) (validity a)
 
-def signEnd (a : Action) (s : Nat) : Nat :=
+def signStart (a : Action) (cb : Nat) : Nat :=
   match a with
-  | .depositSweep => depositSweepSignEnd s (expiry a s)
-  | .redemption => redemptionSignEnd s (expiry a s)
-  | .movingFunds => movingFundsSignEnd s (expiry a s)
-  | .movedFundsSweep => movedFundsSweepSignEnd s (expiry a s)
-  | .heartbeat => heartbeatSignEnd s (expiry a s)
+  | .depositSweep => depositSweepSignStart (start cb) (expiry a cb)
+  | .redemption => redemptionSignStart (start cb) (expiry a cb)
+  | .movingFunds => movingFundsSignStart (start cb) (expiry a cb)
+  | .movedFundsSweep => movedFundsSweepSignStart (start cb) (expiry a cb)
+  | .heartbeat => heartbeatSignStart (start cb) (expiry a cb)
 
-def guardFails (a : Action) (s : Nat) : Bool :=
+def signEnd (a : Action) (cb : Nat) : Nat :=
   match a with
-  | .depositSweep => depositSweepGuardFails s (expiry a s)
-  | .redemption => redemptionGuardFails s (expiry a s)
-  | .movingFunds => movingFundsGuardFails s (expiry a s)
-  | .movedFundsSweep => movedFundsSweepGuardFails s (expiry a s)
-  | .heartbeat => heartbeatGuardFails s (expiry a s)
+  | .depositSweep => depositSweepSignEnd (start cb) (expiry a cb)
+  | .redemption => redemptionSignEnd (start cb) (expiry a cb)
+  | .movingFunds => movingFundsSignEnd (start cb) (expiry a cb)
+  | .movedFundsSweep => movedFundsSweepSignEnd (start cb) (expiry a cb)
+  | .heartbeat => heartbeatSignEnd (start cb) (expiry a cb)
+
+def guardFails (a : Action) (cb : Nat) : Bool :=
+  match a with
+  | .depositSweep => depositSweepGuardFails (start cb) (expiry a cb)
+  | .redemption => redemptionGuardFails (start cb) (expiry a cb)
+  | .movingFunds => movingFundsGuardFails (start cb) (expiry a cb)
+  | .movedFundsSweep => movedFundsSweepGuardFails (start cb) (expiry a cb)
+  | .heartbeat => heartbeatGuardFails (start cb) (expiry a cb)
 
 /-- heartbeat only: deadline of the inactivity claim. -/
-def claimEnd (s : Nat) : Nat := heartbeatClaimEnd s (expiry .heartbeat s)
+def claimEnd (cb : Nat) : Nat := heartbeatClaimEnd (start cb) (expiry .heartbeat cb)
 
 /-- broadcast timeout and check delay in seconds (transaction actions). -/
 def bcastSeconds : Action → Nat
